@@ -67,7 +67,7 @@ V05(c) ==
       want == {g \in AllRegions(c) : g.a <= g.b /\ g.b < ContigLen(c.segs, g.ctg)}
       bad == {k \in 1..Len(Q) : V05q(c, Q[k]) # "ok"}
   IN IF c.index_status # "ok" THEN "index_failed_" \o c.index_status
-     ELSE IF ~c.truncated /\ singles # want THEN "harness_regions_incomplete"
+     ELSE IF ~c.truncated /\ ~c.sampled /\ singles # want THEN "harness_regions_incomplete"
      ELSE IF bad = {} THEN "ok" ELSE V05q(c, Q[MinOf(bad)])
 
 Verdict(c) == CASE c.mode = "C03" -> V03(c) [] c.mode = "C04" -> V04(c) [] c.mode = "C05" -> V05(c)
